@@ -50,6 +50,13 @@ def run(repo, rep, tier):
     _keyed(repo, rep)
     _nsstack(repo, rep)
     _tables(repo, rep)
+    nt_, glued_ = L.glued_words(repo, ('chameleon.tal', 'chameleon.metal', 'chameleon.i18n', 'chameleon.zpt.program'))
+    rep.check(nt_ >= 1 and not glued_, "R18.4", "chameleon.tal", "every entry of "
+              "the statement whitelists and namespace tables is one string literal (no "
+              "two names glued together by a missing comma)",
+              construct="table-entry-glued", detail="; ".join(
+                  "%s:%d %s" % (g[0].relpath, g[1], g[2])
+                  for g in glued_[:3]) or "%d word tables" % nt_)
 
 
 def _param_effects(f, params):
